@@ -58,22 +58,30 @@ pub fn tuple_destructure(tpl_dstrct: &TupleDestructure, p: &Interpreter) -> MRes
   };
   let symbols = p.symbols();
   let mut symbols_brrw = symbols.borrow_mut();
+  // Validate every name before defining any, so that a failing destructure
+  // leaves the symbol table as it was.
   for (i, var) in tpl_dstrct.vars.iter().enumerate() {
     let id = var.hash();
-    if symbols_brrw.contains(id) {
+    if symbols_brrw.contains(id) || tpl_dstrct.vars[..i].iter().any(|v| v.hash() == id) {
       return Err(MechError::new(
         VariableAlreadyDefinedError { id },
         None
       ).with_compiler_loc().with_tokens(var.tokens()));
     }
-    if let Some(element) = tpl.borrow().get(i) {
-      symbols_brrw.insert(id, element.clone(), true);
-      symbols_brrw.dictionary.borrow_mut().insert(id, var.name.to_string());
-    } else {
+    if tpl.borrow().get(i).is_none() {
       return Err(MechError::new(
         TupleDestructureTooManyVarsError{ value: source.kind() },
         None
       ).with_compiler_loc().with_tokens(var.tokens()));
+    }
+  }
+  // The new names are defined without `~`: they are immutable, and each holds
+  // its own copy of the element rather than sharing the tuple's cell.
+  for (i, var) in tpl_dstrct.vars.iter().enumerate() {
+    let id = var.hash();
+    if let Some(element) = tpl.borrow().get(i) {
+      symbols_brrw.insert(id, element.deep_clone(), false);
+      symbols_brrw.dictionary.borrow_mut().insert(id, var.name.to_string());
     }
   }
   Ok(source)
